@@ -53,7 +53,8 @@ def snapshot(root):
         if os.path.relpath(dirpath, root) == ".git" or os.path.relpath(dirpath, root).startswith(".git/"):
             dirnames[:] = []
             continue
-        if ".git" in dirnames and dirpath == str(root):
+        # Git's own metadata (of the project and of any submodule) is not part of the snapshot: `git status` refreshes the index
+        if ".git" in dirnames and os.path.isdir(os.path.join(dirpath, ".git")):
             dirnames.remove(".git")
         for n in dirnames + filenames:
             p = os.path.join(dirpath, n)
@@ -69,13 +70,13 @@ def snapshot(root):
     return snap
 
 
-def covered_files(root, has_git):
+def covered_files(root, has_git, submods=()):
     paths = GT.all_paths(root)
     rels = [p for p, _k, _s in paths]
     ignored = GT.git_ignored(root, rels) if has_git else set()
     cov, unspec = set(), set()
     for p, kind, size in paths:
-        v, _w = RC.classify(p, kind, size, vcs_ignored=p in ignored)
+        v, _w = RC.classify(p, kind, size, vcs_ignored=p in ignored, in_submodule=any(p == sm or p.startswith(sm + "/") for sm in submods))
         if v == RC.COVERED and not RC.is_cal_shl(p.rsplit("/", 1)[-1]):
             cov.add(p)
         elif v != RC.EXCLUDED:
@@ -111,7 +112,7 @@ class Machine(RuleBasedStateMachine):
         self.sentinel = self.base / "outside-sentinel"
         tree.write_tree(self.sentinel, {"file": "sentinel content\n", "dir/inner.py": "print('outside')\n", "x.py.license": "SPDX-License-Identifier: MIT\n",
                                         "LicenseRef-verif.txt": "custom text from the source directory\n"})
-        spec = dict(spec, git=dict(spec["git"], submodules=[]) if spec["git"] else None)
+        self.submods = list(spec["git"]["submodules"]) if spec["git"] else []
         nodes = dict(spec["nodes"])
         # no nested REUSE.toml / dep5 surprises: exactly one global licensing file, valid
         nodes = {p: v for p, v in nodes.items() if p.rsplit("/", 1)[-1] != "REUSE.toml" and not p.startswith(".reuse/dep5")}
@@ -174,7 +175,7 @@ class Machine(RuleBasedStateMachine):
         else:
             res = cli.run(args, cwd or self.root)
         after = snapshot(self.root)
-        step = {"args": [str(a) for a in args], "exit": res.code, "kind": kind}
+        step = {"args": [str(a) for a in args], "exit": res.code, "kind": kind, "cwd": os.path.relpath(cwd or self.root, self.base)}
         self.history.append(step)
         case = {"history": self.history}
         if snapshot(self.sentinel) != self.sent0:
@@ -249,11 +250,23 @@ class Machine(RuleBasedStateMachine):
         self._run(args, lambda b: {x for p in chosen for x in ((p, p + ".license") if not os.path.islink(self.root / (p + ".license")) else (p,))}, "mut")
 
     @precondition(lambda self: self.base is not None and len(self.history) <= 7)
-    @rule(picks=st.lists(st.integers(0, 100), min_size=1, max_size=2), dot=st.sampled_from(["--fallback-dot-license", "--skip-unrecognised", "--force-dot-license"]))
-    def annotate_recursive(self, picks, dot):
+    @rule(picks=st.lists(st.integers(0, 100), min_size=1, max_size=2), dot=st.sampled_from(["--fallback-dot-license", "--skip-unrecognised", "--force-dot-license"]),
+          where=st.sampled_from(["root", "root", "subdir", "subdir", "outside"]), wpick=st.integers(0, 100))
+    def annotate_recursive(self, picks, dot, where="root", wpick=0):
         dirs = self._dirs() + ["."]
         chosen = sorted({dirs[i % len(dirs)] for i in picks})
-        cov, unspec = covered_files(self.root, self.has_git)
+        # started in the root, in a sub-directory of the project (paths relative to it), or elsewhere with --root
+        cwd, pre = self.root, []
+        inner = [d for d in self._dirs() if not d.startswith(".git") and not any(d == sm or d.startswith(sm + "/") for sm in self.submods) and os.path.isdir(self.root / d)]
+        if where == "subdir" and inner:
+            cwd = self.root / inner[wpick % len(inner)]
+            if not self.has_git or wpick % 2:
+                pre = ["--root", os.path.relpath(self.root, cwd)]
+        elif where == "outside":
+            cwd, pre = self.base, ["--root", "proj"]
+        self.ctx.label(f"annotate -r: started in {where if cwd != self.root else 'root'}" + (" (submodule present)" if self.submods else ""))
+        named = [os.path.relpath(self.root / d, cwd) for d in chosen]
+        cov, unspec = covered_files(self.root, self.has_git, self.submods)
 
         def below(p):
             return any(d == "." or p.startswith(d + "/") for d in chosen)
@@ -265,7 +278,7 @@ class Machine(RuleBasedStateMachine):
                     out |= {p, p + ".license"} if not os.path.islink(self.root / (p + ".license")) else {p}
             return out
 
-        self._run(["annotate", "--copyright", "Verif", "--license", "MIT", "--year", "2020", dot, "-r", "--", *chosen], allowed, "mut")
+        self._run([*pre, "annotate", "--copyright", "Verif", "--license", "MIT", "--year", "2020", dot, "-r", "--", *named], allowed, "mut", cwd=cwd)
 
     @precondition(lambda self: self.base is not None and len(self.history) <= 7)
     @rule(pick=st.integers(0, 100), dot=st.sampled_from(["--fallback-dot-license", "--skip-unrecognised", "--force-dot-license"]))
@@ -273,10 +286,12 @@ class Machine(RuleBasedStateMachine):
         """`--root DIR annotate -r DIR` from the top of the tree: DIR is the project root now, but the ignore rules of the
         enclosing Git repository still hold."""
         dirs = [d for d in self._dirs() if not d.startswith((".git", ".hg")) and "/.git" not in d]
+        # (not a directory inside, equal to or above a submodule: what a root below the top of the work tree knows of the top-level .gitmodules is not stated)
+        dirs = [d for d in dirs if not any(d == sm or d.startswith(sm + "/") or sm.startswith(d + "/") for sm in self.submods)]
         if not dirs:
             return
         d = dirs[pick % len(dirs)]
-        cov, unspec = covered_files(self.root, self.has_git)
+        cov, unspec = covered_files(self.root, self.has_git, self.submods)
         # classification relative to DIR as the root (LICENSES/, .reuse/ ... directly below it); either reading is allowed
         sub = GT.all_paths(self.root / d)
         ignored = GT.git_ignored(self.root, [f"{d}/{p}" for p, _k, _s in sub]) if self.has_git else set()
@@ -389,11 +404,11 @@ def replay(ctx, case):
             ro = step["kind"] == "ro"
             args = step["args"]
             if ro:
-                m._run(args, lambda b: set(), "ro")
+                m._run(args, lambda b: set(), "ro", cwd=m.base / step.get("cwd", "proj"))
             else:
                 with STUB.active({}):
                     before = snapshot(m.root)
-                    cli.run(args, m.root)
+                    cli.run(args, m.base / step.get("cwd", "proj"))
                     if snapshot(m.sentinel) != m.sent0:
                         raise Violation(case, f"`reuse {' '.join(args)}` changed the sentinel directory outside the project")
     finally:
